@@ -627,7 +627,8 @@ def draw_voronoi_grid(
     height = y_max - y_min
     y_padding = height / 20
 
-    s_default = (180 / max(width, height)) ** 2
+    # centroids without extent (a single cell) are sized like a single cell
+    s_default = (180 / (max(width, height) or 1)) ** 2
     arguments = collect_agent_data(space, agent_portrayal, size=s_default)
 
     ax.set_xlim(x_min - x_padding, x_max + x_padding)
